@@ -166,11 +166,24 @@ type gen struct {
 	budget int // remaining nodes
 	maxD   int
 	big    bool // allow long strings / long vectors
+
+	longStr bool     // draw string/bytes lengths at and beyond the 253/254 switch
+	longs   [][]byte // the long contents generated (to locate their ends in the encoding)
 }
 
 func (g *gen) str() []byte {
 	r := g.r
 	n := 0
+	if g.longStr && r.Chance(40) {
+		// long form (>= 254) at and beyond the short/long switch, lengths of every residue mod 4
+		n = hc.Pick(r, 253, 254, 255, 256, 257, 258, 259, 260, 261, 300, 301, 302, 303, 1021, 1022, 1023, 1024, 1025, r.Range(254, 700))
+		b := r.Bytes(n)
+		for i := range b {
+			b[i] = 'a' + b[i]%26
+		}
+		g.longs = append(g.longs, b)
+		return b
+	}
 	switch r.Intn(10) {
 	case 0:
 		n = 0
@@ -294,6 +307,9 @@ func (g *gen) fillTy(t *Ty, fv reflect.Value, depth int) {
 		n := 0
 		if depth < g.maxD && g.budget > 0 {
 			n = hc.Pick(r, 0, 1, 1, 2, 3)
+			if g.longStr && r.Chance(4) && (t.Elem.K == "int" || t.Elem.K == "long" || t.Elem.K == "str") {
+				n = hc.Pick(r, 253, 254, 255, 256)
+			}
 			if g.big && r.Chance(3) && (t.Elem.K == "int" || t.Elem.K == "long") {
 				n = hc.Pick(r, 1023, 1024, 1025, 2050)
 				g.big = false
@@ -495,8 +511,17 @@ func encodeSafe(obj bin.Object) (data []byte, err error, panicked any) {
 	return b.Buf, err, nil
 }
 
+// exact returns a copy of data whose capacity equals its length, like a freshly read message:
+// Go's slice expressions are checked against cap, so an over-read inside spare capacity would not
+// panic (it would silently read stale bytes).
+func exact(data []byte) []byte {
+	buf := make([]byte, len(data))
+	copy(buf, data)
+	return buf[:len(data):len(data)]
+}
+
 func decodeSafe(obj bin.Object, data []byte) (rest int, err error, panicked any) {
-	b := &bin.Buffer{Buf: data}
+	b := &bin.Buffer{Buf: exact(data)}
 	defer func() {
 		if r := recover(); r != nil {
 			panicked = r
@@ -629,4 +654,16 @@ func (w *world) showTyPre(b *strings.Builder, t *Ty, fv reflect.Value) {
 	default:
 		w.showTy(b, t, fv)
 	}
+}
+
+// decodeIfaceSafe runs a generated DecodeXxx on an exact-size copy of data.
+func decodeIfaceSafe(fn func(*bin.Buffer) (bin.Object, error), data []byte) (obj bin.Object, rest int, err error, panicked any) {
+	b := &bin.Buffer{Buf: exact(data)}
+	defer func() {
+		if r := recover(); r != nil {
+			panicked = r
+		}
+	}()
+	obj, err = fn(b)
+	return obj, len(b.Buf), err, nil
 }
